@@ -297,7 +297,13 @@ def write_pkg(spec, root):
         byfile.setdefault(fk, []).append(src)
     for fk, srcs in byfile.items():
         text = ''.join(srcs)
-        im = ['\t"github.com/google/wire"'] + needs_imports(spec, text)
+        wimp = '\t"github.com/google/wire"'
+        if fk % 2 == 1:
+            # this file imports wire under another name than the file with the injectors
+            import re as _re
+            text = _re.sub(r'(?<![A-Za-z0-9_.])wire\.', 'gowire.', text)
+            wimp = '\tgowire "github.com/google/wire"'
+        im = [wimp] + needs_imports(spec, text)
         open(os.path.join(d, 'sets%d.go' % fk), 'w').write('package main\n\nimport (\n%s\n)\n\n%s' % ('\n'.join(im), text))
     inj = spec['injector']
     params = ', '.join('p%d %s' % (i, use_form(spec, a)) for i, a in enumerate(inj['args']))
@@ -575,15 +581,15 @@ def random_spec(rng, sid, nmin=3, nmax=6, external=False, decoy=False, struct_va
             pkg = rng.choice(['a/util', 'b/util'])
         t = new_type(pkg=pkg)
         bind = rng.random() < (0.55 if external else 0.3) and types[t]['form'] == 'ptr'
-        if bind:
+        if bind and rng.random() < 0.5:
             fname = 'New%s' % t      # the documented convention for Bind: constructor New<Type>
         else:
-            fname = rng.choice(names) % t
+            fname = rng.choice(names) % t      # any name: the binding refers to the provider listed in the set
         req_ = pick_inputs()
         if pkg:
             # a sub-package cannot import the main package: only inputs it defines itself
             req_ = [r for r in req_ if types.get(r, {}).get('pkg') == pkg]
-        funcs.append({'name': fname, 'requires': req_, 'provides': t, 'fallible': rng.random() < 0.3, 'pkg': pkg})
+        funcs.append({'name': fname, 'requires': req_, 'provides': t, 'fallible': rng.random() < (0.55 if bind else 0.3), 'pkg': pkg})
         elems.append({'kind': 'func', 'name': fname})
         if bind:
             iname = 'I%d' % nI
@@ -596,14 +602,16 @@ def random_spec(rng, sid, nmin=3, nmax=6, external=False, decoy=False, struct_va
                 produced.append(t)
             if decoy and rng.random() < 0.7:
                 # the set uses another constructor than New<Type>; New<Type> exists but is not part of the configuration
-                real = 'Provide%s' % t
-                for f in funcs:
-                    if f['name'] == fname:
-                        f['name'] = real
-                for e in elems:
-                    if e.get('name') == fname:
-                        e['name'] = real
-                funcs.append({'name': fname, 'requires': [], 'provides': t, 'fallible': False, 'pkg': pkg, 'decoy': True})
+                newname = 'New%s' % t
+                if fname == newname:
+                    real = 'Provide%s' % t
+                    for f in funcs:
+                        if f['name'] == fname:
+                            f['name'] = real
+                    for e in elems:
+                        if e.get('name') == fname:
+                            e['name'] = real
+                funcs.append({'name': newname, 'requires': [], 'provides': t, 'fallible': False, 'pkg': pkg, 'decoy': True})
         else:
             produced.append(t)
     if external and not any(f_[0] == 'Fx' for t_ in types.values() for f_ in t_.get('fields', [])):
